@@ -16,6 +16,24 @@ theorem find_map_name (F : Callable → Callable) (hF : ∀ c, (F c).name = c.na
     simp only [List.map_cons, List.find?_cons, hF]
     cases h : (a.name == n) <;> simp [ih]
 
+theorem first_of_nodup (c : Callable) (h : (callIds c).Nodup) :
+    ∀ k ∈ c.calls, c.calls.find? (·.id == k.id) = some k := by
+  unfold callIds at h
+  generalize c.calls = l at h
+  induction l with
+  | nil => intro k hk; cases hk
+  | cons a t ih =>
+    intro k hk
+    simp only [List.map_cons, List.nodup_cons] at h
+    cases hk with
+    | head => simp
+    | tail _ hk =>
+      have : (a.id == k.id) = false := by
+        have : a.id ≠ k.id := fun e => h.1 (e ▸ List.mem_map.mpr ⟨k, hk, rfl⟩)
+        simpa using this
+      simp only [List.find?_cons, this]
+      exact ih h.2 k hk
+
 theorem expandWild_noStar (ti : TypeInfo) (pipe : Callable) (params : List String) (bs : List Bind)
     (h : noStar bs = true) : expandWild ti pipe params bs = bs := by
   unfold expandWild
@@ -216,5 +234,245 @@ theorem resolveBinds_renameFirst (ti : TypeInfo) (a b : String) (tys : Members) 
       simp only [resolveBinds, List.map_cons] at this ⊢
       rw [this]
       simp [renKeyEnv, hk, lookup_renKeyM_other a b bd.name tys hk hnb]
+
+
+/-! ### renaming inside resolved expressions -/
+
+section MapSref
+variable (g : String → List String → String × List String)
+
+theorem mapSref_rnull : mapSref g rnull = rnull := rfl
+
+theorem substRefs_post (f : Ref → RExp) (e : Exp) :
+    mapSref g (substRefs f e) = substRefs (fun r => mapSref g (f r)) e := by
+  induction e with
+  | lit s => rfl
+  | ref r => rfl
+  | split e ih => simp [substRefs, mapSref, ih]
+  | arr es ih => simp [substRefs, mapSref, ih]
+  | map b es ih => simp [substRefs, mapSref, ih]
+  | nil => rfl
+  | cons k h t ih1 ih2 => simp [substRefs, mapSref, ih1, ih2]
+
+theorem envEntries_mapVals (env : Env) :
+    mapSref g (envEntries env) = envEntries (mapVals (mapSref g) env) := by
+  induction env with
+  | nil => rfl
+  | cons e t ih =>
+    obtain ⟨k, v⟩ := e
+    simp only [envEntries, mapSref, mapVals, List.map_cons] at ih ⊢
+    rw [ih]
+
+theorem envGet_mapVals (f : RExp → RExp) (hf : f rnull = rnull) (env : Env) (k : String) :
+    envGet (mapVals f env) k = f (envGet env k) := by
+  unfold envGet mapVals
+  induction env with
+  | nil => simp [hf]
+  | cons e t ih =>
+    obtain ⟨k', v⟩ := e
+    simp only [List.map_cons, List.lookup_cons]
+    cases h : (k == k') <;> simp [ih]
+
+/-- `g` respects projection: it looks at the callable and the path as a whole
+only through a prefix -/
+def PathStable : Prop := ∀ c p q, g c (p ++ q) = ((g c p).1, (g c p).2 ++ q)
+
+theorem bindingPath_mapSref_all (hg : PathStable g) (v : RExp) :
+    (∀ path, bindingPath path (mapSref g v) = mapSref g (bindingPath path v))
+    ∧ (∀ path, bindingPathElems path (mapSref g v) = mapSref g (bindingPathElems path v))
+    ∧ (∀ h t, projectMember h t (mapSref g v) = mapSref g (projectMember h t v)) := by
+  induction v with
+  | lit s => simp [mapSref, bindingPath, bindingPathElems, projectMember, rnull]
+  | sref fq c p =>
+    refine ⟨?_, ?_, ?_⟩
+    · intro path
+      simp only [mapSref, bindingPath]
+      rw [hg c p path]
+    · intro path; simp [mapSref, bindingPathElems]
+    · intro h t; simp [mapSref, projectMember, rnull]
+  | split e _ => simp [mapSref, bindingPath, bindingPathElems, projectMember, rnull]
+  | arr es ih =>
+    refine ⟨?_, ?_, ?_⟩
+    · intro path; simp [mapSref, bindingPath, ih.2.1]
+    · intro path; simp [mapSref, bindingPathElems]
+    · intro h t; simp [mapSref, projectMember, rnull]
+  | map st es ih =>
+    refine ⟨?_, ?_, ?_⟩
+    · intro path
+      cases st with
+      | false => simp [mapSref, bindingPath, ih.2.1]
+      | true =>
+        cases path with
+        | nil => simp [mapSref, bindingPath]
+        | cons h t => simp [mapSref, bindingPath, ih.2.2]
+    · intro path; simp [mapSref, bindingPathElems]
+    · intro h t; simp [mapSref, projectMember, rnull]
+  | nil => simp [mapSref, bindingPath, bindingPathElems, projectMember, rnull]
+  | cons k hd tl ih1 ih2 =>
+    refine ⟨?_, ?_, ?_⟩
+    · intro path; simp [mapSref, bindingPath]
+    · intro path; simp [mapSref, bindingPathElems, ih1.1, ih2.2.1]
+    · intro h t
+      simp only [mapSref, projectMember]
+      split
+      · exact ih1.1 t
+      · exact ih2.2.2 h t
+
+theorem filter_mapSref_all (mo : String → Option Members) (v : RExp) :
+    (∀ ty, filterExp mo ty (mapSref g v) = mapSref g (filterExp mo ty v))
+    ∧ (∀ ty, filterElems mo ty (mapSref g v) = mapSref g (filterElems mo ty v))
+    ∧ (∀ ms, filterMembers mo ms (mapSref g v) = mapSref g (filterMembers mo ms v)) := by
+  induction v with
+  | lit s => simp [mapSref, filterExp, filterElems, filterMembers]
+  | sref fq c p => simp [mapSref, filterExp, filterElems, filterMembers]
+  | split e _ => simp [mapSref, filterExp, filterElems, filterMembers]
+  | arr es ih =>
+    refine ⟨?_, ?_, ?_⟩
+    · intro ty
+      simp only [mapSref, filterExp]
+      split
+      · rfl
+      · split
+        · rfl
+        · simp [mapSref, ih.2.1]
+    · intro ty; simp [mapSref, filterElems]
+    · intro ms; simp [mapSref, filterMembers]
+  | map st es ih =>
+    refine ⟨?_, ?_, ?_⟩
+    · intro ty
+      simp only [mapSref, filterExp]
+      split
+      · rfl
+      · split
+        · simp [mapSref, ih.2.2]
+        · split
+          · simp [mapSref, ih.2.1]
+          · rfl
+    · intro ty; simp [mapSref, filterElems]
+    · intro ms; simp [mapSref, filterMembers]
+  | nil => simp [mapSref, filterExp, filterElems, filterMembers]
+  | cons k hd tl ih1 ih2 =>
+    refine ⟨?_, ?_, ?_⟩
+    · intro ty; simp [mapSref, filterExp]
+    · intro ty; simp [mapSref, filterElems, ih1.1, ih2.2.1]
+    · intro ms
+      simp only [mapSref, filterMembers]
+      split
+      · simp [mapSref, ih1.1, ih2.2.2]
+      · exact ih2.2.2 ms
+
+theorem resolveBinds_post (ti : TypeInfo) (tys : Members) (f : Ref → RExp) (bs : List Bind) :
+    resolveBinds ti tys (fun r => mapSref g (f r)) bs
+      = mapVals (mapSref g) (resolveBinds ti tys f bs) := by
+  unfold resolveBinds mapVals
+  rw [List.map_map]
+  apply List.map_congr_left
+  intro bd _
+  simp only [Function.comp]
+  rw [← substRefs_post]
+  split
+  · rw [(filter_mapSref_all g _ _).1]
+  · rfl
+
+end MapSref
+
+theorem mem_of_lookup {α : Type} (k : String) (v : α) (l : List (String × α)) (h : l.lookup k = some v) :
+    (k, v) ∈ l := by
+  induction l with
+  | nil => simp at h
+  | cons e t ih =>
+    obtain ⟨k', v'⟩ := e
+    simp only [List.lookup_cons] at h
+    cases hk : (k == k') with
+    | true =>
+      simp only [hk] at h
+      have : k = k' := by simpa using hk
+      cases h
+      simp [this]
+    | false =>
+      simp only [hk] at h
+      exact List.mem_cons_of_mem _ (ih h)
+
+/-- the member lookups agree on every type the filtering can reach -/
+theorem filter_congr_all (mo mo' : String → Option Members) (ok : String → Prop)
+    (hmo : ∀ base, ok base → mo' base = mo base)
+    (hclosed : ∀ base ms, ok base → mo base = some ms → ∀ m ∈ ms, ok m.2.base) (v : RExp) :
+    (∀ ty, ok ty.base → filterExp mo' ty v = filterExp mo ty v)
+    ∧ (∀ ty, ok ty.base → filterElems mo' ty v = filterElems mo ty v)
+    ∧ (∀ ms, (∀ m ∈ ms, ok m.2.base) → filterMembers mo' ms v = filterMembers mo ms v) := by
+  induction v with
+  | lit s => simp [filterExp, filterElems, filterMembers]
+  | sref fq c p => simp [filterExp, filterElems, filterMembers]
+  | split e _ => simp [filterExp, filterElems, filterMembers]
+  | arr es ih =>
+    refine ⟨?_, ?_, ?_⟩
+    · intro ty hty
+      simp only [filterExp, hmo _ hty]
+      split
+      · rfl
+      · split
+        · rfl
+        · rw [ih.2.1 { base := ty.base, arrayDim := ty.arrayDim - 1, mapDim := ty.mapDim } hty]
+    · intro ty _; simp [filterElems]
+    · intro ms _; simp [filterMembers]
+  | map st es ih =>
+    refine ⟨?_, ?_, ?_⟩
+    · intro ty hty
+      simp only [filterExp, hmo _ hty]
+      split
+      · rfl
+      · rename_i ms hms
+        split
+        · rw [ih.2.2 ms (hclosed _ ms hty hms)]
+        · split
+          · rw [ih.2.1 ⟨ty.base, ty.mapDim - 1, 0⟩ hty]
+          · rfl
+    · intro ty _; simp [filterElems]
+    · intro ms _; simp [filterMembers]
+  | nil => simp [filterExp, filterElems, filterMembers]
+  | cons k hd tl ih1 ih2 =>
+    refine ⟨?_, ?_, ?_⟩
+    · intro ty _; simp [filterExp]
+    · intro ty hty; simp [filterElems, ih1.1 ty hty, ih2.2.1 ty hty]
+    · intro ms hms
+      simp only [filterMembers]
+      split
+      · rename_i mty hl
+        have : ok mty.base := by
+          exact hms _ (mem_of_lookup k mty ms hl)
+        rw [ih1.1 mty this, ih2.2.2 ms hms]
+      · exact ih2.2.2 ms hms
+
+theorem lookup_renTop_other {α : Type} (x y n : String) (l : List (String × α)) (hx : n ≠ x) (hy : n ≠ y) :
+    (renTop x y l).lookup n = l.lookup n := by
+  induction l with
+  | nil => rfl
+  | cons e t ih =>
+    obtain ⟨k, v⟩ := e
+    simp only [renTop]
+    split
+    · rename_i hk
+      subst hk
+      have h1 : (n == k) = false := by simpa using hx
+      have h2 : (n == y) = false := by simpa using hy
+      simp [List.lookup_cons, h1, h2]
+    · cases hnk : (n == k) <;> simp [List.lookup_cons, hnk, ih]
+
+theorem lookup_renTop_new {α : Type} (x y : String) (l : List (String × α)) (hy : y ∉ l.map (·.1)) :
+    (renTop x y l).lookup y = l.lookup x := by
+  induction l with
+  | nil => rfl
+  | cons e t ih =>
+    obtain ⟨k, v⟩ := e
+    simp only [List.map_cons, List.mem_cons, not_or] at hy
+    simp only [renTop]
+    split
+    · rename_i hk
+      subst hk
+      simp [List.lookup_cons]
+    · rename_i hk
+      have h1 : (y == k) = false := by simpa using hy.1
+      have h2 : (x == k) = false := by simpa using (fun h => hk h.symm)
+      simp [List.lookup_cons, h1, h2, ih hy.2]
 
 end Proofs.RefactorGraph
